@@ -143,30 +143,35 @@ def run(ctx):
             if why:
                 ctx.fail(why, c, {'method': c['method']})
     # dense matrices
-    for i in range(ctx.n(120, 1500)):
-        rs = np.random.RandomState(ctx.rng.randint(0, 2 ** 31 - 1))
-        m, n = ctx.rng.randint(1, 7), ctx.rng.randint(1, 7)
-        X = rs.randn(m, n)
-        kind = ctx.rng.choice(['full', 'deficient', 'repeated'])
-        if kind == 'deficient' and min(m, n) >= 2:
-            X = rs.randn(m, 1) @ rs.randn(1, n) + (rs.randn(m, 1) @ rs.randn(1, n) if ctx.rng.random() < 0.5 else 0)
-        if kind == 'repeated':
-            U, _, Vh = np.linalg.svd(X, full_matrices=False)
-            s = np.sort(rs.choice([1.0, 2.0, 3.0], size=min(m, n)))[::-1]
-            X = (U * s) @ Vh
-        method = ctx.rng.choice(['economy', 'rank', 'cutoff'])
-        param = None if method == 'economy' else (ctx.rng.randint(1, 4) if method == 'rank' else ctx.rng.choice([0.5, 1.5, 2.5]))
-        try:
-            t = pykoop.Tsvd(truncation=method, truncation_param=param).fit(X)
-        except ValueError:
-            ctx.count('dense:raised')
-            continue
-        ctx.count('dense:' + kind)
-        ctx.record_case({'dense': kind, 'shape': [m, n], 'method': method, 'param': param}, True)
-        why = oracle_factors(X, t, method, param)
-        if why:
-            ctx.fail(why, {'X': X.tolist(), 'method': method, 'param': param}, {'method': method})
-    return ctx.finish('proof', None)
+    def dense(n_cases, stop_at_first=False):
+        for i in range(n_cases):
+            rs = np.random.RandomState(ctx.rng.randint(0, 2 ** 31 - 1))
+            m, n = ctx.rng.randint(1, 7), ctx.rng.randint(1, 7)
+            X = rs.randn(m, n)
+            kind = ctx.rng.choice(['full', 'deficient', 'repeated'])
+            if kind == 'deficient' and min(m, n) >= 2:
+                X = rs.randn(m, 1) @ rs.randn(1, n) + (rs.randn(m, 1) @ rs.randn(1, n) if ctx.rng.random() < 0.5 else 0)
+            if kind == 'repeated':
+                U, _, Vh = np.linalg.svd(X, full_matrices=False)
+                s = np.sort(rs.choice([1.0, 2.0, 3.0], size=min(m, n)))[::-1]
+                X = (U * s) @ Vh
+            method = ctx.rng.choice(['economy', 'rank', 'cutoff'])
+            param = None if method == 'economy' else (ctx.rng.randint(1, 4) if method == 'rank' else ctx.rng.choice([0.5, 1.5, 2.5]))
+            try:
+                t = pykoop.Tsvd(truncation=method, truncation_param=param).fit(X)
+            except ValueError:
+                ctx.count('dense:raised')
+                continue
+            ctx.count('dense:' + kind)
+            ctx.record_case({'dense': kind, 'shape': [m, n], 'method': method, 'param': param}, True)
+            why = oracle_factors(X, t, method, param)
+            if why:
+                ctx.fail(why, {'X': X.tolist(), 'method': method, 'param': param}, {'method': method})
+                if stop_at_first:
+                    return
+    dense(ctx.n(120, 1500))
+    # a broken proof / correspondence with no failing input so far: a larger population (same oracle)
+    return ctx.finish('proof', lambda c: dense(1500, True))
 
 
 def replay(ctx, path):
